@@ -14,6 +14,15 @@ a *vacancy cluster* (first site = vacancy) contributes only for the single trans
 on the supercell's vacancy, and only if that position holds the same basis atom (c, i); its other sites must be
 occupied.
 
+Thin (self-wrapping) supercells need no special case in this definition: an instance is one (cluster, translation)
+pair, every one of its sites is mapped into the supercell by its position, and the instance is on iff all mapped
+sites are occupied - a supercell site that is hit twice simply has to be occupied, and a vacancy cluster one of whose
+other sites lands on the (never occupied) vacancy site - the periodic image of its own vacancy - is never on.
+Census attributes for the drivers: `selfwrap[k]` (flags parallel to `instances[k]`: two different cluster sites,
+mobile or spectator or the cluster's vacancy site, are the same supercell site), `nselfwrap_const` (same, among the
+spectator-only instances), `vacimage` (list of (k, other mobile indices) of vacancy-cluster placements with active
+spectators that were dropped because a site other than the cluster's vacancy site is the supercell's vacancy).
+
 API
     brute_energy(sup, clusterexp, values, mocc, socc)      -> float   (one configuration)
     BruteEnergy(sup, clusterexp, socc)                      precomputed instances for many configurations:
@@ -74,8 +83,11 @@ class BruteEnergy:
         # instances[k] = list of (tuple of mobile indices) that are active for this spectator occupation
         self.instances = []
         self.nconst = []   # instances without mobile sites (constant for the given spectators)
-        for clset in clusterexp:
-            inst, const = [], 0
+        self.selfwrap = []
+        self.nselfwrap_const = 0
+        self.vacimage = []
+        for k, clset in enumerate(clusterexp):
+            inst, const, wrapflags = [], 0, []
             for cl in clset:
                 sites = [((int(cs.ci[0]), int(cs.ci[1])), np.array(cs.R, dtype=int)) for cs in cl.sites]
                 if cl.__vacancy__:
@@ -86,24 +98,35 @@ class BruteEnergy:
                     if vci != self.vac_ci: continue
                     shifts = [self.vac_R - vR]
                     sites = rest
+                    seat = [('m', self.vac)]
                 else:
                     if cl.__transition__:
                         raise ValueError('transition-state clusters carry no energy')
                     shifts = self.trans
+                    seat = []
                 for T in shifts:
-                    active, mob = True, []
+                    active, mob, located = True, [], list(seat)
                     for ci, R in sites:
                         which, n = self.locate(ci, R + T)
+                        located.append((which, n))
                         if which == 's':
                             if self.socc[n] != 1: active = False
                         else:
                             mob.append(n)
                     if not active: continue
-                    if self.vac is not None and self.vac in mob: continue   # the vacancy is never occupied
-                    if mob: inst.append(tuple(mob))
-                    else: const += 1
+                    if self.vac is not None and self.vac in mob:   # the vacancy is never occupied
+                        if cl.__vacancy__: self.vacimage.append((k, tuple(n for n in mob if n != self.vac)))
+                        continue
+                    wraps = len(set(located)) < len(located)
+                    if mob:
+                        inst.append(tuple(mob))
+                        wrapflags.append(wraps)
+                    else:
+                        const += 1
+                        self.nselfwrap_const += wraps
             self.instances.append(inst)
             self.nconst.append(const)
+            self.selfwrap.append(wrapflags)
 
     def locate(self, ci, R):
         """('m'|'s', index) of the supercell position that holds basis atom ci in cell R"""
